@@ -56,7 +56,7 @@ FirstSeq(q) == Sq(q.alph, [i \in DOMAIN q.rows |-> q.alph[1]])
 SwapAlph(A) == [i \in DOMAIN A |-> IF i = 1 THEN A[2] ELSE IF i = 2 THEN A[1] ELSE A[i]]
 
 Enabled(op, a) ==
-  CASE op = "getitem"      -> a[1][1] # "int" \/ Dom_IntIndex(p, a[1][2][1])
+  CASE op = "getitem"      -> Dom_Index(p, a[1])
     [] op \in {"poke_symbols"} -> Dom_Poke(p, a[1], a[2])
     [] op = "poke_gaps"    -> Dom_Poke(p, a[1], 0)
     [] op = "eq_k"         -> a[1] \in {"same", "alph"} \/ Len(p.rows) > 0
